@@ -364,7 +364,17 @@ func (e *penv) takeLoopbacks(n int) bool {
 
 // ------------------------------------------------------------------ observation builders
 
-var obsKinds = []string{"valid", "valid", "valid", "other-digest", "wrong-addr", "claims-own-addr", "claims-member", "flip-sig", "flip-hash", "flip-addr", "short-sig", "long-sig", "recid", "empty-sig", "empty-hash", "empty-addr", "short-hash", "nil-fields"}
+// obsKindIdx returns the index of a kind in obsKinds
+func obsKindIdx(k string) int {
+	for i, x := range obsKinds {
+		if x == k {
+			return i
+		}
+	}
+	panic("unknown observation kind " + k)
+}
+
+var obsKinds = []string{"valid", "valid", "valid", "other-digest", "wrong-addr", "claims-own-addr", "claims-member", "flip-sig", "flip-hash", "flip-addr", "short-sig", "long-sig", "recid", "empty-sig", "empty-hash", "empty-addr", "short-hash", "nil-fields", "valid-other-tx", "recid-alias"}
 
 func mkObservation(m *msgInfo, other *msgInfo, signer int, kind string, x int) *gossipv1.SignedObservation {
 	digest := m.digest[:]
@@ -410,6 +420,10 @@ func mkObservation(m *msgInfo, other *msgInfo, signer int, kind string, x int) *
 		o.Hash = o.Hash[:31]
 	case "nil-fields":
 		o.Signature, o.Hash, o.Addr, o.TxHash = nil, nil, nil, nil
+	case "recid-alias": // the valid signature with its recovery id written the EVM way
+		o.Signature[64] += 27
+	case "valid-other-tx": // a valid observation whose (unsigned) transaction hash differs from the one this node saw
+		o.TxHash = vh.Expand(uint64(7000+x), 32)
 	}
 	return o
 }
